@@ -36,7 +36,7 @@ for f in selftest/refactors/*.diff; do
   [ -e "$f" ] || continue
   n=$(basename "$f" .diff); p=${n%%_*}
   r=$(AOTOOLS_KEEP=1 selftest/mutant.py --tier $tier --patch "$f" $p 2>&1 | head -1)
-  case "$r" in *"exit=0"*) say "refactor $n -> silent OK";; *) say "refactor $n -> $r  (FALSE ALARM)"; bad=1;; esac
+  case "$r" in *"exit=0"*) say "refactor $n -> silent OK";; *"exit=2"*) say "refactor $n -> inconclusive (no alarm; the monitor cannot observe this implementation) OK";; *) say "refactor $n -> $r  (FALSE ALARM)"; bad=1;; esac
 done
 [ $bad -eq 0 ] && echo "SELFTEST PASSED" || echo "SELFTEST FAILED"
 exit $bad
